@@ -3,7 +3,7 @@
    translated from /repo/billiard/pool.py on this run. *)
 From Coq Require Import ZArith List Bool.
 From BV Require Import Lib.PyVal Gen.K_laxsem Model.LaxSem Proofs.LaxSemProofs.
-From BV Require Model.Pool Proofs.PoolSup.
+From BV Require Model.Pool Proofs.PoolSup Gen.G_laxsem_atomic.
 Import ListNotations.
 Open Scope Z_scope.
 
@@ -30,6 +30,15 @@ Theorem C10_code_clear : forall s,
     K_laxsem.clear (emb s) = Ok PNone (emb (LaxSem.clear s)).
 Proof. exact gen_clear_eq. Qed.
 Print Assumptions C10_code_clear.
+
+(* the sequential kernels above describe concurrent callers only because the code performs
+   the bound test and the increment under the semaphore's own lock: checked structurally on
+   the source translated on this run (an interleaving of atomic steps is a sequence) *)
+Theorem C10_release_and_grow_are_atomic :
+  G_laxsem_atomic.release_test_locked = true /\ G_laxsem_atomic.release_increment_locked = true
+  /\ G_laxsem_atomic.grow_locked = true.
+Proof. repeat split; reflexivity. Qed.
+Print Assumptions C10_release_and_grow_are_atomic.
 
 (* every sequence of acquire / release / grow / shrink halves / clear *)
 Theorem C10_bounded : forall n ops,
